@@ -28,6 +28,10 @@ use rs_matter::utils::storage::pooled::{Buffers, PooledBuffers};
 #[path = "c13_sys.rs"]
 mod sys;
 
+/// event rings + table + reader: what a report to a live subscription carries
+#[path = "c13_evs.rs"]
+mod evs;
+
 const POOL: usize = 6;
 type Pool = PooledBuffers<IMBuffer, POOL>;
 
@@ -706,11 +710,13 @@ pub fn gen(a: &Args) -> String {
     let mut r = Rng::new(a.seed);
     let mut out = Out::default();
     out.buf.push_str("#rule a case is one interleaving on a fresh real Subscriptions<N> table (N in 1..4) of attribute changes (hot paths, bursts overflowing the 16-entry table, wildcards), subscription adds whose priming context stays open, reporter report begins with their contexts kept open, keep/retry/drop endings, purges, removals by peer and by expiry, next_report_at queries, persisting the table to a retained store and restarting the device on it (fresh table, load_persist), under a monotone clock with steps around the negotiated intervals; non-trivial = a change was recorded while a subscription was outside the table, a report was begun and a purge ran; distinct = by operation list; ");
+    out.buf.push_str(evs::RULE);
+    out.buf.push_str("; ");
     out.buf.push_str(sys::RULE);
     out.buf.push('\n');
     let n_cases = if a.thorough { 40000 } else { 4000 };
     // development aid: `--only sys` skips the table-level cases
-    let only_sys = a.extra.get("only").map(|v| v == "sys").unwrap_or(false);
+    let only_sys = a.extra.get("only").map(|v| v == "sys" || v == "evs").unwrap_or(false);
     for id in 0..n_cases {
         if only_sys {
             break;
@@ -727,7 +733,14 @@ pub fn gen(a: &Args) -> String {
         let mut er = r.fork();
         gen_evq(&mut out, &mut er, if a.thorough { 200 } else { 20 }, 9_000_000);
     }
-    sys::gen(&mut out, &mut r, a.thorough, n_cases);
+    if !only_sys || a.extra.get("only").map(|v| v == "evs").unwrap_or(false) {
+        // its own generator state: the other streams keep their cases
+        let mut vr = Rng::new(a.seed ^ 0x5e0e_c13c_e5e5_0001);
+        evs::gen(&mut out, &mut vr, if a.thorough { 3000 } else { 250 }, 9_500_000);
+    }
+    if !a.extra.get("only").map(|v| v == "evs").unwrap_or(false) {
+        sys::gen(&mut out, &mut r, a.thorough, n_cases);
+    }
     out.finish()
 }
 
@@ -739,6 +752,8 @@ pub fn replay(a: &Args) -> String {
             sys::replay_case(&mut out, &c);
         } else if c.kind.starts_with("evq") {
             evq_case(&mut out, &c);
+        } else if c.kind.starts_with("evs") {
+            evs::replay_case(&mut out, &c);
         } else {
             replay_case(&mut out, &c);
         }
